@@ -31,14 +31,17 @@ pub fn install(base: &[u32], strict: bool) {
     }
     #[cfg(kani)]
     unsafe {
-        let t: [u16; 128] = kani::any();
-        let mut i = 0;
-        while i < 128 {
-            kani::assume(t[i] >= 1 && t[i] <= 7462);
-            i += 1;
-        }
-        T = t;
+        // entries are constrained to 1..=7462 where they are read (`entry`), which avoids a 128-step loop here
+        T = kani::any();
     }
+}
+
+/// read one table entry; every entry that is ever read is assumed to be a real ordinal
+#[cfg(kani)]
+pub fn entry(m: usize) -> u16 {
+    let v = unsafe { T[m] };
+    kani::assume(v >= 1 && v <= 7462);
+    v
 }
 
 /// subset mask of the five slots over the base cards, or None when they are not five distinct base cards
@@ -67,7 +70,7 @@ pub fn mask_of(a: [u32; 5]) -> Option<usize> {
 #[cfg(kani)]
 pub fn f(a: [u32; 5]) -> u16 {
     match mask_of(a) {
-        Some(m) => unsafe { T[m] },
+        Some(m) => entry(m),
         None => kani::any(),
     }
 }
@@ -81,11 +84,63 @@ pub fn f(a: [u32; 5]) -> u16 {
 pub fn stub_five(this: &Five) -> (u16, Five) {
     let a = this.to_arr();
     match mask_of(a) {
-        Some(m) => (unsafe { T[m] }, *this),
+        Some(m) => (entry(m), *this),
         None => {
             if unsafe { STRICT } {
                 kani::assert(false, "S5 strict: five-card evaluator reached with a hand that is not five distinct real cards");
             }
+            (kani::any(), *this)
+        }
+    }
+}
+
+/// Variant for C08: the five slots may hold the base cards shifted by the SAME number k of suit shifts
+/// (that is what shifting a whole hand produces).  The value depends on the set of base cards only — i.e. the
+/// abstraction additionally builds in "a uniform suit shift does not change a five-card value", which the
+/// c08_value_* harnesses establish on the real evaluator (and C01 through the suit-blind ordinal).
+pub fn spec_shift(w: u32, k: u32) -> u32 {
+    // S1: shift moves suit s -> s+3 mod 4 (S->H->D->C->S), k times
+    let r = (w >> 8) & 15;
+    let s = crate::spec::cards::suit_of(w);
+    crate::spec::cards::word(r, (s + 3 * k) % 4)
+}
+
+pub fn mask_of_shifted(a: [u32; 5]) -> Option<usize> {
+    let mut k = 0u32;
+    while k < 4 {
+        let mut m = 0usize;
+        let mut ok = true;
+        let mut i = 0;
+        while i < 5 {
+            let mut found = 8usize;
+            let mut j = 0;
+            while j < unsafe { NBASE } {
+                if found == 8 && spec_shift(unsafe { BASE[j] }, k) == a[i] {
+                    found = j;
+                }
+                j += 1;
+            }
+            if found == 8 || (m >> found) & 1 == 1 {
+                ok = false;
+            } else {
+                m |= 1 << found;
+            }
+            i += 1;
+        }
+        if ok {
+            return Some(m);
+        }
+        k += 1;
+    }
+    None
+}
+
+#[cfg(kani)]
+pub fn stub_five_shift(this: &Five) -> (u16, Five) {
+    match mask_of_shifted(this.to_arr()) {
+        Some(m) => (entry(m), *this),
+        None => {
+            kani::assert(false, "S5 (shift variant): evaluator reached with a hand that is not five distinct base cards under one uniform shift");
             (kani::any(), *this)
         }
     }
